@@ -4,6 +4,7 @@ package c10
 
 import (
 	"fmt"
+	"regexp"
 	"sort"
 	"strconv"
 	"strings"
@@ -624,6 +625,21 @@ func checkText(s string) error {
 			return harness.Failf("C10/parse-wrong-id", "ParseObjectID(%q) = %d, %v; want %d", s, gotO, err, want)
 		}
 	}
+	// a version on a kind without versions is not judged above; but whatever
+	// identifier a parser hands out for in-range numbers names that kind and
+	// reference and is canonical: its textual form parses back to itself
+	if m := unversionedWithVersion.FindStringSubmatch(s); m != nil && err == nil {
+		ref, _ := strconv.ParseInt(m[2], 10, 64)
+		ver, _ := strconv.ParseInt(m[3], 10, 64)
+		if ref <= maxRef && ver <= maxVer {
+			if gotO.Type() != osm.Type(m[1]) || gotO.Ref() != ref {
+				return harness.Failf("C10/parse-wrong-id", "ParseObjectID(%q) = %d, which decodes to %s/%d", s, gotO, gotO.Type(), gotO.Ref())
+			}
+			if back, err2 := osm.ParseObjectID(gotO.String()); err2 != nil || back != gotO {
+				return harness.Failf("C10/parse-roundtrip", "ParseObjectID(%q) = %d prints as %q, which parses to %d (%v): not the same identifier", s, gotO, gotO.String(), back, err2)
+			}
+		}
+	}
 	// feature ids
 	v, k = recognise(s, elementKinds, false)
 	gotF, err := osm.ParseFeatureID(s)
@@ -640,6 +656,8 @@ func checkText(s string) error {
 	}
 	return nil
 }
+
+var unversionedWithVersion = regexp.MustCompile(`^(changeset|note|user)/([0-9]{1,13}):([0-9]{1,5})$`)
 
 var kindWords = []string{"node", "way", "relation", "changeset", "note", "user", "bounds", "Node", "nodes", "", "n", "area", "unknown", " node", "node ", "wáy"}
 var numWords = []string{"0", "1", "7", "007", "65535", "65536", "1099511627775", "1099511627776", "9223372036854775807", "9223372036854775808", "99999999999999999999", "", "-", "-1", "+1", "1.0", "1e3", "0x10", "１２", " 1", "1 ", "x", "--1"}
